@@ -114,6 +114,27 @@ fn svg_of<S: State + Serialize + DeserializeOwned>(st: &S, e: &Value) -> Option<
     Some(st.as_svg().to_string())
 }
 
+/// The p1 description with one occupied site per copy (Crystal!AsSites) of the state described by
+/// `e`, built from the one-site p1 state `st`.
+fn multi_site<S: State + Serialize + DeserializeOwned>(st: &S, e: &Value) -> Option<S> {
+    let mut j = serde_json::to_value(st).ok()?;
+    place(&mut j, e);
+    let d = e["D"].as_i64()? as f64;
+    let proto = j["occupied_sites"][0].clone();
+    let mut sites = vec![];
+    for s in e["sites"].as_array()? {
+        let v: Vec<f64> = s.as_array()?.iter().map(|x| x.as_i64().unwrap_or(0) as f64).collect();
+        let a = f64::atan2(v[3], v[2]);
+        let mut site = proto.clone();
+        site["x"] = json!(v[0] / d);
+        site["y"] = json!(v[1] / d);
+        site["angle"] = json!(if a < 0. { a + 2. * std::f64::consts::PI } else { a });
+        sites.push(site);
+    }
+    j["occupied_sites"] = Value::Array(sites);
+    serde_json::from_value(j).ok()
+}
+
 /// JSON round trip of one state: (ok, what went wrong)
 fn roundtrip<S, F>(st: &S, placements: F) -> Result<(), String>
 where
@@ -149,6 +170,7 @@ pub fn svg(input: &str, out: &str) {
     let mut checked = 0usize;
     let mut uses_checked = 0usize;
     let mut json_checked = 0usize;
+    let mut multi_checked = 0usize;
     let mut failures: Vec<Value> = vec![];
     for line in f.lines() {
         let line = line.unwrap();
@@ -231,6 +253,60 @@ pub fn svg(input: &str, out: &str) {
                 Err(err) => failures.push(json!({"what": format!("a legal LJ state cannot be read from its JSON form: {}", err), "state": e})),
             }
         }
+        // the same crystal as a p1 state with one site per copy: same drawing (each body turned by
+        // RotLin instead of Lin), and the several-site JSON round-trips
+        let mut multi_svgs: Vec<Option<String>> = vec![];
+        if e["multi"].as_i64() == Some(1) && e["sites"].as_array().map(|a| a.len()).unwrap_or(0) > 1 {
+            let p1 = group("p1");
+            macro_rules! multi {
+                ($st:expr, $t:ty) => {
+                    if let Ok(st) = $st {
+                        match multi_site::<$t>(&st, &e) {
+                            Some(m) => {
+                                multi_checked += 1;
+                                if let Err(w) = roundtrip(&m, |s| s.cartesian_positions().collect()) {
+                                    failures.push(json!({"what": format!("JSON round trip (several sites): {}", w), "state": e}));
+                                }
+                                multi_svgs.push(Some(m.as_svg().to_string()));
+                            }
+                            None => failures.push(json!({"what": "a legal state with several sites cannot be read from its JSON form", "state": e})),
+                        }
+                    }
+                };
+            }
+            match shape {
+                "square" | "kite" | "kite2" | "quad" => {
+                    let radial = match shape {
+                        "square" => vec![1.; 4],
+                        "kite" => vec![1., 0.5, 1., 0.5],
+                        "kite2" => vec![0.5, 1., 0.5, 1.],
+                        _ => vec![1., 0.5, 0.8, 0.3],
+                    };
+                    multi!(PackedState::from_group(LineShape::from_radial(shape, radial).unwrap(), &p1), PackedState<LineShape>);
+                }
+                _ => {
+                    let sh = if shape == "circle" {
+                        MolecularShape2::circle()
+                    } else {
+                        MolecularShape2::from_trimer(gi("sr") / u, 180., gi("sd") / u)
+                    };
+                    multi!(PackedState::from_group(sh, &p1), PackedState<MolecularShape2>);
+                }
+            }
+            // a Lennard-Jones disc has every symmetry
+            multi!(PotentialState::from_group(LJShape2::circle(), &p1), PotentialState<LJShape2>);
+        }
+        let exp_rot: Vec<[f64; 6]> = exp_mol.iter().map(|m| [m[0], m[1], -m[1], m[0], m[4], m[5]]).collect();
+        for s in multi_svgs.into_iter().flatten() {
+            let groups = parse_uses(&s);
+            uses_checked += exp_rot.len();
+            let (mol_ok, cell_ok) = uses_match(&groups, &exp_rot, Some(&exp_cell), tol);
+            if !mol_ok || !cell_ok {
+                failures.push(json!({"what": "SVG of the several-site description does not place the shape at the state's transforms and nearest images",
+                    "state": e, "observed": {"use_groups": groups.iter().map(|g| g.len()).collect::<Vec<_>>(), "expected": exp_rot.len()}}));
+                break;
+            }
+        }
         checked += 1;
         for (kind, s) in svgs {
             let s = match s {
@@ -252,7 +328,7 @@ pub fn svg(input: &str, out: &str) {
         }
     }
     let res = json!({"C11": {"checked": checked, "nontrivial": checked, "use_elements_checked": uses_checked,
-        "json_roundtrips": json_checked, "failures": failures.len(),
+        "json_roundtrips": json_checked, "several_site_states": multi_checked, "failures": failures.len(),
         "first_failures": failures.iter().take(10).collect::<Vec<_>>()}});
     let mut fo = fs::File::create(out).expect("out");
     writeln!(fo, "{}", res).unwrap();
